@@ -251,7 +251,9 @@ class World:
             inp = {}
         else:
             if inv == "negative":
-                items = [(k, -abs(w) - 0.1 if i == 0 else w) for i, (k, w) in enumerate(items)]
+                # clearly negative, or negative by a hair: a probability below zero is below zero
+                neg = [lambda w: -abs(w) - 0.1, lambda w: -1e-13, lambda w: -1e-17, lambda w: -5e-324, lambda w: -1e-9][ctx.rng(step).randrange(5)]
+                items = [(k, neg(w) if i == 0 else w) for i, (k, w) in enumerate(items)]
             if inv == "all-zero":
                 items = [(k, 0) for k, w in items]
             inp = {key_of(k, a["style"]): w for k, w in items}
